@@ -43,6 +43,7 @@ type c18Crash struct {
 	Stderr   string `json:"stderr"`
 	Message  string `json:"message"`
 	Timeout  bool   `json:"timeout,omitempty"`
+	Free     bool   `json:"after_forced_part,omitempty"` // the crash happened after the forced steps, while the rest ran freely
 }
 
 // crashMessage extracts the runtime's first line ("panic: …" / "fatal error: …").
@@ -113,6 +114,7 @@ func c18RunChildren(ctx *Ctx, job c18Job, n int, perChild time.Duration) ([]map[
 			werr = <-done
 		}
 		cur, lastStep, lastLabel := -1, -1, ""
+		free := false
 		allDone := false
 		sc := bufio.NewScanner(&stdout)
 		sc.Buffer(make([]byte, 1<<20), 1<<26)
@@ -128,12 +130,16 @@ func c18RunChildren(ctx *Ctx, job c18Job, n int, perChild time.Duration) ([]map[
 			if _, ok := m["begin"]; ok {
 				cur = int(m["job"].(float64))
 				lastStep, lastLabel = -1, ""
+				free = false
 				continue
 			}
 			if _, ok := m["end"]; ok {
 				results[int(m["job"].(float64))] = m
 				cur = -1
 				continue
+			}
+			if _, ok := m["phase"]; ok {
+				free = true
 			}
 			if st, ok := m["step"]; ok {
 				lastStep = int(st.(float64))
@@ -158,7 +164,7 @@ func c18RunChildren(ctx *Ctx, job c18Job, n int, perChild time.Duration) ([]map[
 			exit = werr.Error()
 		}
 		crashes[cur] = &c18Crash{Job: cur, LastStep: lastStep, Label: lastLabel, Exit: exit,
-			Stderr: stderrExcerpt(stderr.String()), Message: crashMessage(stderr.String()), Timeout: timedOut}
+			Stderr: stderrExcerpt(stderr.String()), Message: crashMessage(stderr.String()), Timeout: timedOut, Free: free}
 		start = cur + 1
 	}
 	return results, crashes, nil
@@ -380,6 +386,7 @@ func runC18(ctx *Ctx) error {
 			return err
 		}
 	}
+	priority := len(scheds) // the pinned witnesses run first, then the connection-write orders
 	for i, w := range witnesses {
 		if err := add(fmt.Sprintf("witness-%s-%d", w.name, i), w.cfg, w.labels); err != nil {
 			return err
@@ -417,75 +424,115 @@ func runC18(ctx *Ctx) error {
 			}
 		}
 	}
-	results, crashes, err := c18RunChildren(ctx, c18Job{Mode: "forced", Scheds: scheds}, len(scheds), 10*time.Minute)
-	if err != nil {
-		return err
-	}
-	for i := range scheds {
-		s := &scheds[i]
-		ender := false
-		for _, l := range s.Labels {
-			if strings.HasPrefix(l, "cl") || l == "upEnd" {
-				ender = true
+	runForced := func(scheds []c18Sched) error {
+		// in chunks: once plenty of failing schedules are known the search stops
+		results := make([]map[string]interface{}, len(scheds))
+		crashes := map[int]*c18Crash{}
+		ran := 0
+		for c0 := 0; c0 < len(scheds); c0 += 40 {
+			c1 := c0 + 40
+			if c1 > len(scheds) {
+				c1 = len(scheds)
 			}
-		}
-		ctx.Rep.Case("forced|"+strings.Join(s.Labels, " "), ender && len(s.Labels) >= 8)
-		ctx.Rep.Count("forced")
-		modelFatal := -1
-		modelMsg := ""
-		for k, st := range s.Steps {
-			if st.Fatal != nil {
-				modelFatal, modelMsg = k, *st.Fatal
+			rs, crs, err := c18RunChildren(ctx, c18Job{Mode: "forced", Scheds: scheds[c0:c1]}, c1-c0, 10*time.Minute)
+			if err != nil {
+				return err
+			}
+			bad := 0
+			for k, r := range rs {
+				results[c0+k] = r
+				if r != nil {
+					if okk, _ := r["ok"].(bool); !okk {
+						bad++
+					}
+				}
+			}
+			for k, cr := range crs {
+				cr.Job += c0
+				crashes[c0+k] = cr
+				bad++
+			}
+			ran = c1
+			if len(crashes) >= 30 || bad >= 30 {
+				ctx.Rep.Note(fmt.Sprintf("forced schedules: stopped after %d of %d (plenty of failing schedules found)", ran, len(scheds)))
 				break
 			}
 		}
-		cs := map[string]interface{}{"kind": "forced", "sched": s}
-		if cr, ok := crashes[i]; ok {
-			ctx.Rep.Count("forced.crash")
-			what := cr.Message
-			if cr.Timeout {
-				what = "the child process did not finish (deadlock?)"
+		scheds = scheds[:ran]
+		for i := range scheds {
+			s := &scheds[i]
+			ender := false
+			for _, l := range s.Labels {
+				if strings.HasPrefix(l, "cl") || l == "upEnd" {
+					ender = true
+				}
 			}
-			if modelFatal >= 0 && cr.LastStep == modelFatal && fatalClass(cr.Message) == fatalClass(modelMsg) {
+			ctx.Rep.Case("forced|"+strings.Join(s.Labels, " "), ender && len(s.Labels) >= 8)
+			ctx.Rep.Count("forced")
+			modelFatal := -1
+			modelMsg := ""
+			for k, st := range s.Steps {
+				if st.Fatal != nil {
+					modelFatal, modelMsg = k, *st.Fatal
+					break
+				}
+			}
+			cs := map[string]interface{}{"kind": "forced", "sched": s}
+			if cr, ok := crashes[i]; ok {
+				ctx.Rep.Count("forced.crash")
+				what := cr.Message
+				if cr.Timeout {
+					what = "the child process did not finish (deadlock?)"
+				}
+				if cr.Free {
+					ctx.Rep.Traces++ // every forced step conformed
+					ctx.Rep.Fail(hx.Failure{Kind: "property-fails", Detail: fmt.Sprintf("forced schedule %s: after its %d forced steps, while the rest of the teardown ran freely, the gateway process crashed: %s", s.ID, len(s.Steps), what),
+						Case: cs, Impl: cr, Index: i})
+				} else if modelFatal >= 0 && cr.LastStep == modelFatal && fatalClass(cr.Message) == fatalClass(modelMsg) {
+					ctx.Rep.Traces++
+					ctx.Rep.Fail(hx.Failure{Kind: "property-fails", Detail: fmt.Sprintf("forced schedule %s crashes the gateway process at step %d (%s): %s — as the model of this protocol predicts (%s)", s.ID, cr.LastStep, cr.Label, what, modelMsg),
+						Case: cs, Impl: cr, Model: map[string]interface{}{"fatal_at": modelFatal, "fatal": modelMsg}, Index: i})
+				} else {
+					ctx.Rep.Fail(hx.Failure{Kind: "property-fails", Detail: fmt.Sprintf("forced schedule %s: the gateway process crashed at step %d (%s): %s", s.ID, cr.LastStep, cr.Label, what),
+						Case: cs, Impl: cr, Index: i})
+					ctx.Rep.Fail(hx.Failure{Kind: "model-mismatch", Detail: fmt.Sprintf("forced schedule %s: crash at step %d (%s) but the model says fatal_at=%d %s", s.ID, cr.LastStep, cr.Label, modelFatal, modelMsg),
+						Case: cs, Impl: cr, Index: i})
+				}
+				continue
+			}
+			r := results[i]
+			if r == nil {
+				ctx.Rep.Fail(hx.Failure{Kind: "harness-error", Detail: "no result for schedule " + s.ID, Case: cs, Index: i})
+				continue
+			}
+			if okk, _ := r["ok"].(bool); okk {
 				ctx.Rep.Traces++
-				ctx.Rep.Fail(hx.Failure{Kind: "property-fails", Detail: fmt.Sprintf("forced schedule %s crashes the gateway process at step %d (%s): %s — as the model of this protocol predicts (%s)", s.ID, cr.LastStep, cr.Label, what, modelMsg),
-					Case: cs, Impl: cr, Model: map[string]interface{}{"fatal_at": modelFatal, "fatal": modelMsg}, Index: i})
-			} else {
-				ctx.Rep.Fail(hx.Failure{Kind: "property-fails", Detail: fmt.Sprintf("forced schedule %s: the gateway process crashed at step %d (%s): %s", s.ID, cr.LastStep, cr.Label, what),
-					Case: cs, Impl: cr, Index: i})
-				ctx.Rep.Fail(hx.Failure{Kind: "model-mismatch", Detail: fmt.Sprintf("forced schedule %s: crash at step %d (%s) but the model says fatal_at=%d %s", s.ID, cr.LastStep, cr.Label, modelFatal, modelMsg),
-					Case: cs, Impl: cr, Index: i})
+				if len(ctx.Rep.Samples) < 2 {
+					ctx.Rep.Sample(map[string]interface{}{"forced_schedule": s.Labels, "result": r})
+				}
+				continue
 			}
-			continue
-		}
-		r := results[i]
-		if r == nil {
-			ctx.Rep.Fail(hx.Failure{Kind: "harness-error", Detail: "no result for schedule " + s.ID, Case: cs, Index: i})
-			continue
-		}
-		if okk, _ := r["ok"].(bool); okk {
-			ctx.Rep.Traces++
-			if len(ctx.Rep.Samples) < 2 {
-				ctx.Rep.Sample(map[string]interface{}{"forced_schedule": s.Labels, "result": r})
+			kind, _ := r["fail"].(string)
+			detail, _ := r["detail"].(string)
+			switch kind {
+			case "leak", "torn":
+				ctx.Rep.Count("forced." + kind)
+				if kind == "leak" {
+					ctx.Rep.Traces++ // every step conformed; the END state violates the property
+				}
+				ctx.Rep.Fail(hx.Failure{Kind: "property-fails", Detail: fmt.Sprintf("forced schedule %s: %s", s.ID, detail), Case: cs, Impl: r, Index: i})
+			case "mismatch", "no-crash":
+				ctx.Rep.Fail(hx.Failure{Kind: "model-mismatch", Detail: fmt.Sprintf("forced schedule %s: %s", s.ID, detail), Case: cs, Impl: r, Index: i})
+			default:
+				ctx.Rep.Fail(hx.Failure{Kind: "harness-error", Detail: fmt.Sprintf("forced schedule %s: %s", s.ID, detail), Case: cs, Impl: r, Index: i})
 			}
-			continue
 		}
-		kind, _ := r["fail"].(string)
-		detail, _ := r["detail"].(string)
-		switch kind {
-		case "leak", "torn":
-			ctx.Rep.Count("forced." + kind)
-			if kind == "leak" {
-				ctx.Rep.Traces++ // every step conformed; the END state violates the property
-			}
-			ctx.Rep.Fail(hx.Failure{Kind: "property-fails", Detail: fmt.Sprintf("forced schedule %s: %s", s.ID, detail), Case: cs, Impl: r, Index: i})
-		case "mismatch", "no-crash":
-			ctx.Rep.Fail(hx.Failure{Kind: "model-mismatch", Detail: fmt.Sprintf("forced schedule %s: %s", s.ID, detail), Case: cs, Impl: r, Index: i})
-		default:
-			ctx.Rep.Fail(hx.Failure{Kind: "harness-error", Detail: fmt.Sprintf("forced schedule %s: %s", s.ID, detail), Case: cs, Impl: r, Index: i})
-		}
-	}
 
+		return nil
+	}
+	if err := runForced(scheds[:priority]); err != nil {
+		return err
+	}
 	// ---------------- C. connection-write orders
 	var conns []c18ConnSched
 	addConn := func(id string, labels []string) error {
@@ -564,19 +611,36 @@ func runC18(ctx *Ctx) error {
 		}
 	}
 
+	if err := runForced(scheds[priority:]); err != nil {
+		return err
+	}
+	nForced := len(scheds)
 	// ---------------- D. stress
 	scripts := c18Scripts(ctx)
 	batch := 25
 	accepted, acceptTried := 0, 0
+	stressBad := 0
 	for b0 := 0; b0 < len(scripts); b0 += batch {
 		b1 := b0 + batch
 		if b1 > len(scripts) {
 			b1 = len(scripts)
 		}
 		part := scripts[b0:b1]
+		if stressBad >= 30 {
+			ctx.Rep.Note(fmt.Sprintf("stress: stopped after %d of %d scripts (plenty of failing scripts found)", b0, len(scripts)))
+			break
+		}
 		sres, scr, err := c18RunChildren(ctx, c18Job{Mode: "stress", Scripts: part}, len(part), 5*time.Minute)
 		if err != nil {
 			return err
+		}
+		stressBad += len(scr)
+		for _, r := range sres {
+			if r != nil {
+				if okk, _ := r["ok"].(bool); !okk {
+					stressBad++
+				}
+			}
 		}
 		for i := range part {
 			sc := &part[i]
@@ -665,7 +729,7 @@ func runC18(ctx *Ctx) error {
 			}
 		}
 	}
-	ctx.Rep.Note(fmt.Sprintf("forced schedules: %d (+%d connection-write orders); stress scripts: %d; free-running hook traces accepted by the model: %d/%d", len(scheds), len(conns), len(scripts), accepted, acceptTried))
+	ctx.Rep.Note(fmt.Sprintf("forced schedules: %d (+%d connection-write orders); stress scripts: %d; free-running hook traces accepted by the model: %d/%d", nForced, len(conns), len(scripts), accepted, acceptTried))
 	return nil
 }
 
@@ -673,7 +737,9 @@ func runC18(ctx *Ctx) error {
 func c18Scripts(ctx *Ctx) []c18Script {
 	var out []c18Script
 	cl := func(act, id string, d int) c18Action { return c18Action{Who: "cl", Act: act, ID: id, Delay: d} }
-	up := func(act, id string, n, d int) c18Action { return c18Action{Who: "up", Act: act, ID: id, N: n, Delay: d} }
+	up := func(act, id string, n, d int) c18Action {
+		return c18Action{Who: "up", Act: act, ID: id, N: n, Delay: d}
+	}
 	corpus := [][]c18Action{
 		{cl("init", "", 0), cl("start", "1", 0), up("event", "1", 0, 0), cl("stop", "1", 200), cl("terminate", "", 100)},
 		{cl("init", "", 0), cl("start", "1", 0), up("complete", "1", 0, 0), cl("stop", "1", 0)},
